@@ -294,6 +294,17 @@ class SOpaque(V):
         return self
 
 
+@dataclass(eq=False)
+class SHavoc(V):
+    """A value about which nothing is known, not even its type (object state left by earlier calls whose type the
+    verifier cannot express): every observation of it -- truthiness, None-ness, equality -- is an unconstrained boolean."""
+
+    tag: str
+
+    def __deepcopy__(self, memo):
+        return self
+
+
 # ----------------------------------------------------------------------------- records kept in State
 @dataclass
 class ObjRec:
